@@ -1,10 +1,13 @@
 package main
 
 import (
+	"context"
 	"database/sql"
 	"fmt"
+	"os"
 	"path/filepath"
 	"reflect"
+	"strings"
 
 	"github.com/akrennmair/updog/verifharness/gen"
 	"github.com/akrennmair/updog/verifharness/ix"
@@ -54,8 +57,21 @@ func runC12(r *vf.Run) {
 			return
 		}
 		dbs := map[string]*sql.DB{}
-		for _, o := range dsnOptionSets {
-			db, err := sql.Open("updog", "file:"+path+o.opts)
+		for oi, o := range dsnOptionSets {
+			// the same file under its three DSN spellings: file:/abs, file:///abs and file:relative
+			dsnPath := "file:" + path
+			switch oi % 3 {
+			case 1:
+				dsnPath = "file://" + path
+			case 2:
+				if wd, err := os.Getwd(); err == nil {
+					if rel, err := filepath.Rel(wd, path); err == nil && !strings.HasPrefix(rel, "/") {
+						dsnPath = "file:" + rel
+					}
+				}
+			}
+			r.Cover("dsn_spellings", []string{"file:/abs", "file:///abs", "file:relative"}[oi%3])
+			db, err := sql.Open("updog", dsnPath+o.opts)
 			if err != nil {
 				r.Violation(id, "sql.Open", err.Error())
 				return
@@ -72,7 +88,18 @@ func runC12(r *vf.Run) {
 			}
 		}()
 		nq := r.Pick(30, 70)
+		closedEarly := map[string]bool{}
 		for qi := 0; qi < nq; qi++ {
+			if qi == nq/2 && !poisoned {
+				// half of the handles are closed while the others stay in use on the same file
+				for oi, o := range dsnOptionSets {
+					if oi%2 == 1 {
+						dbs[o.name].Close()
+						closedEarly[o.name] = true
+					}
+				}
+				r.Count("handles_closed_while_others_stay_in_use", int64(len(closedEarly)))
+			}
 			qid := fmt.Sprintf("%s/q%d", id, qi)
 			if !r.Want(qid) {
 				continue
@@ -116,6 +143,9 @@ func runC12(r *vf.Run) {
 			r.Cover("groupby_lengths", fmt.Sprint(len(gb)))
 			var first *sqlTable
 			for _, o := range dsnOptionSets {
+				if closedEarly[o.name] {
+					continue
+				}
 				r.Eval(1)
 				r.Cover("dsn_option_sets", o.name)
 				var rows *sql.Rows
@@ -166,10 +196,18 @@ func runC12(r *vf.Run) {
 			// the same text as a prepared statement executed twice, the first time read only partially: what a statement
 			// or a connection remembers from one execution must not leak into the next
 			if !want.Err && syntaxOK && qi%3 == 0 {
-				if d := preparedTwice(dbs[dsnOptionSets[qi%len(dsnOptionSets)].name], text, args, want, gb); d != "" {
+				if d := preparedTwice(dbs[openName(closedEarly, qi)], text, args, want, gb); d != "" {
 					r.Violation(qid, "prepared-twice", map[string]any{"text": fmt.Sprintf("%q", text), "args": fmt.Sprintf("%q", strArgs), "problem": d})
 				}
 				r.Count("prepared_statements_executed_twice", 1)
+			}
+			// two results open at the same time on one connection, read row by row in turns; and the same inside a
+			// transaction followed by a query after Commit
+			if !want.Err && syntaxOK && qi%5 == 1 {
+				if d := interleavedAndTx(dbs[openName(closedEarly, qi/5)], text, args, want, gb); d != "" {
+					r.Violation(qid, "interleaved-or-transaction", map[string]any{"text": fmt.Sprintf("%q", text), "args": fmt.Sprintf("%q", strArgs), "problem": d})
+				}
+				r.Count("interleaved_and_transaction_histories", 1)
 			}
 			// typed scan of the same result: string..., int64
 			if !want.Err && syntaxOK && qi%4 == 0 {
@@ -283,4 +321,136 @@ func preparedTwice(db *sql.DB, text string, args []any, want oracle.Answer, gb [
 		return "panic: " + msg
 	}
 	return problem
+}
+
+// interleavedAndTx: on ONE connection two result sets of the same query are read in turns; then the query runs
+// inside a transaction, and again after Commit and after a Rollback.
+func interleavedAndTx(db *sql.DB, text string, args []any, want oracle.Answer, gb []string) (problem string) {
+	exp := expectedTable(want, gb)
+	if p, msg, _ := vf.Try(func() {
+		ctx := context.Background()
+		conn, err := db.Conn(ctx)
+		if err != nil {
+			problem = "Conn: " + err.Error()
+			return
+		}
+		defer conn.Close()
+		// alternately: two one-shot queries, or ONE statement prepared on the connection and executed twice
+		q1 := func() (*sql.Rows, error) { return conn.QueryContext(ctx, text, args...) }
+		q2 := q1
+		if len(text)%2 == 0 {
+			st, err := conn.PrepareContext(ctx, text)
+			if err != nil {
+				problem = "PrepareContext: " + err.Error()
+				return
+			}
+			defer st.Close()
+			q1 = func() (*sql.Rows, error) { return st.QueryContext(ctx, args...) }
+			q2 = q1
+		}
+		r1, err := q1()
+		if err != nil {
+			problem = "first query: " + err.Error()
+			return
+		}
+		r2, err := q2()
+		if err != nil {
+			r1.Close()
+			problem = "second query while the first result is open: " + err.Error()
+			return
+		}
+		var t1, t2 sqlTable
+		t1.Cols, _ = r1.Columns()
+		t2.Cols, _ = r2.Columns()
+		scan := func(rows *sql.Rows, t *sqlTable) bool {
+			if !rows.Next() {
+				return false
+			}
+			vals := make([]any, len(t.Cols))
+			ptrs := make([]any, len(t.Cols))
+			for i := range vals {
+				ptrs[i] = &vals[i]
+			}
+			if err := rows.Scan(ptrs...); err != nil {
+				problem = "Scan: " + err.Error()
+				return false
+			}
+			t.Rows = append(t.Rows, vals)
+			return true
+		}
+		for a, b := true, true; (a || b) && problem == ""; {
+			if a {
+				a = scan(r1, &t1)
+			}
+			if b {
+				b = scan(r2, &t2)
+			}
+		}
+		r1.Close()
+		r2.Close()
+		if problem != "" {
+			return
+		}
+		t1.Types, t2.Types = exp.Types, exp.Types
+		for i, t := range []sqlTable{t1, t2} {
+			if d := compareTables(t, exp); d != "" {
+				problem = fmt.Sprintf("result %d of two results read in turns on one connection: %s", i+1, d)
+				return
+			}
+		}
+		for _, end := range []string{"commit", "rollback"} {
+			tx, err := db.BeginTx(ctx, nil)
+			if err != nil {
+				problem = "BeginTx: " + err.Error()
+				return
+			}
+			rows, err := tx.QueryContext(ctx, text, args...)
+			if err != nil {
+				tx.Rollback()
+				problem = "query inside a transaction: " + err.Error()
+				return
+			}
+			got, rerr := readRows(rows)
+			if end == "commit" {
+				err = tx.Commit()
+			} else {
+				err = tx.Rollback()
+			}
+			if rerr != nil || err != nil {
+				problem = fmt.Sprintf("transaction (%s): %v / %v", end, rerr, err)
+				return
+			}
+			if d := compareTables(got, exp); d != "" {
+				problem = "inside a transaction: " + d
+				return
+			}
+			rows, err = db.QueryContext(ctx, text, args...)
+			if err != nil {
+				problem = "query after " + end + ": " + err.Error()
+				return
+			}
+			got, rerr = readRows(rows)
+			if rerr != nil {
+				problem = "query after " + end + ": " + rerr.Error()
+				return
+			}
+			if d := compareTables(got, exp); d != "" {
+				problem = "after " + end + ": " + d
+				return
+			}
+		}
+	}); p {
+		return "panic: " + msg
+	}
+	return problem
+}
+
+// openName picks a DSN option set whose handle is still open.
+func openName(closed map[string]bool, k int) string {
+	for i := 0; i < len(dsnOptionSets); i++ {
+		if n := dsnOptionSets[(k+i)%len(dsnOptionSets)].name; !closed[n] {
+			return n
+		}
+	}
+	return dsnOptionSets[0].name
 }
